@@ -1,10 +1,17 @@
 import NbioVerif.Properties.C06
 import NbioVerif.Lemmas.HttpTables
+import NbioVerif.Lemmas.SrcBridgeHttp
 #print axioms Scan.implParse_eq_spec
 #print axioms Scan.specFeed_append
 #print axioms Http.wf
 #print axioms Scan.c06_segmentation_independent
 #print axioms Http.c06_http
+#print axioms Scan.implParseC_eq
+#print axioms Http.c06_driver_bridge
+#print axioms Http.c06_http_driver
+#print axioms Http.c06_http_driver_limit
+#print axioms Http.c06_messages
+#print axioms Http.procCalls_flatten
 #print axioms Http.isToken_table
 #print axioms Http.isHex_table
 #print axioms Http.isNum_table
@@ -13,3 +20,4 @@ import NbioVerif.Lemmas.HttpTables
 #print axioms Http.validMethods_table
 #print axioms Http.state_table
 #print axioms Http.isToken_rfc
+#print axioms Http.src_isToken
